@@ -15,7 +15,6 @@ git apply --whitespace=nowarn $src/patch.diff && res="$res applies" || res="$res
 go build . ./j2x ./x2j ./x2j-wrapper && res="$res builds" || res="$res BUILD-FAIL"
 if go test -vet=off -count=1 . ./j2x ./x2j ./x2j-wrapper >/tmp/sv-$name.log 2>&1; then res="$res suite-ok"; else res="$res SUITE-FAIL"; fi
 git status --porcelain | grep -v '^ M' | head -3
-git stash -q; git stash pop -q   # make sure only tracked modifications matter
 cp $src/DEMO_test.go $demodir/zz_demo_test.go
 if go test -vet=off -count=1 -run 'TestSeedDemo' ./$demodir >/tmp/sv-$name.demo1 2>&1; then res="$res DEMO-PASSES-WITH-CHANGE"; else res="$res demo-fails-with"; fi
 git apply -R --whitespace=nowarn $src/patch.diff
